@@ -69,24 +69,20 @@ def _make_exception_proxy(exception, message):
           not isinstance(member, property) and not name.startswith('__')):
         setattr(ExceptionProxy, name, forward(name))
 
+  # Allocate the proxy with the first C-level `__new__` in the MRO: a
+  # user-defined `__new__` may take arguments that `args` doesn't mirror, and
+  # whatever it assigns would be forwarded to (and so overwrite) the fields of
+  # the original exception.
+  c_new = next(
+      vars(base)['__new__']
+      for base in type(exception).__mro__
+      if isinstance(vars(base).get('__new__'), type(object.__new__)))
   # Classes whose `__new__` takes arguments (e.g. exception groups) can't be
   # instantiated without them.
   try:
-    proxy = ExceptionProxy.__new__(ExceptionProxy, *exception.args)
+    proxy = c_new(ExceptionProxy, *exception.args)
   except TypeError:
-    try:
-      proxy = ExceptionProxy.__new__(ExceptionProxy)
-    except TypeError:
-      # A user-defined `__new__` whose arguments `args` doesn't mirror: fall back
-      # to the first C-level `__new__` in the MRO.
-      c_new = next(
-          vars(base)['__new__']
-          for base in type(exception).__mro__
-          if isinstance(vars(base).get('__new__'), type(object.__new__)))
-      try:
-        proxy = c_new(ExceptionProxy, *exception.args)
-      except TypeError:
-        proxy = c_new(ExceptionProxy)
+    proxy = c_new(ExceptionProxy)
   # The interpreter reads some builtin fields (e.g. `StopIteration.value` in
   # `yield from`) straight from the C struct: let the builtin base fill them in.
   for base in type(exception).__mro__:
